@@ -134,7 +134,9 @@ ArriveEarly ==
 TryRead100 ==
   /\ i.st = "Await100" /\ i.await
   /\ LET cls == EarlyClasses(sv)[env.earr]
-         und == cls \in Undecided
+         \* the code (httparse with zero header slots) reports a refusal with fields only once one complete
+         \* field line is present; a prefix ending inside the first field line is still "need more"
+         und == cls \in Undecided \cup {"otherInFields"}
          ok  == cls = "bare100"
          i2  == IF und THEN i
                 ELSE IF ok THEN [i EXCEPT !.await = FALSE]
